@@ -63,7 +63,8 @@ def verify_unit(uname, prop, seed):
     wd = os.path.join(BUILD, "verus", prop)
     os.makedirs(wd, exist_ok=True)
     path = os.path.join(wd, uname + ".rs")
-    has_findings = True   # variants (finding copies and vacuity canaries) always go to the second run
+    # variants (finding copies and vacuity canaries) go to a second run; a unit without any has none
+    has_findings = any(info["kind"] in ("finding", "canary") for info in unit.fns.values())
     rl = unit.rlimit
     fut = None
     if has_findings:
